@@ -6,7 +6,7 @@ CONSTANTS
   MaxHonest = 2
   MaxFaulty = 3
   Foreign = TRUE
-  Orders <- OrdersFwdRev
+  Orders <- OrdersAll
   Algo = "perroot"
   Weaken <- NoWeaken
 INVARIANT TypeOK
